@@ -1,16 +1,85 @@
 """C13 — clones are faithful and fully independent of their originals.
 
-(decision log is kept at the end of this docstring; see LOG)
+Decided by: Coq theorems (coq/theories/C13/Property.v, 19 theorems, all "Closed under the global context") about
+the executable heap model in C13/Model.v (Cloner.clone_graph / clone_node / clone_attr / _clone_or_get_value /
+clone_meta / _remap_device_configurations, Graph.clone, GraphView.clone, Function.clone, Model.clone,
+functionalize), tied to /repo on every run by a correspondence check: models are built through the public API,
+cloned by the real code, the object graph of original + clone is dumped (one cell per mutable sub-object,
+object identity -> id) and embedded in case files; inside Coq the model clones the same heap and the two
+results are compared up to a bijection of the NEW identities (C13/Iso.v: which sub-objects are shared and which
+are fresh, and all contents); then a random edit history is applied to either copy on both sides (every op's
+outcome compared) and the heaps are compared again.  The model's canonical serialization `gcanon` is tied to
+ir.to_proto by comparing its projection (names, op ids, connectivity by name, attribute names + nested graphs,
+initializer names, doc strings, metadata_props) with the same projection of the proto the implementation
+serializes, for the original and for the clone.  The property oracle (public API only) searches a concrete
+failing input: proto(clone) == proto(original), canonical structure equal, no mutable object shared, every
+reference inside the clone points into the clone (or to a captured outer-scope value when allowed), the
+original's snapshot + proto unchanged by cloning and by applying every setter to the clone (and vice versa),
+and functionalize(p) never alters its input.
 
-Decided by: Coq theorems (coq/theories/C13/Property.v) about the executable heap model in C13/Model.v
-(Cloner.clone_graph / clone_node / clone_attr / _clone_or_get_value / clone_meta /
-_remap_device_configurations, Graph.clone, GraphView.clone, Function.clone, Model.clone, functionalize),
-tied to /repo on every run by a correspondence check: models are built through the public API, cloned by
-the real code, the object graph of original + clone is dumped (one cell per mutable sub-object, object
-identity -> id) and embedded in case files; inside Coq the model clones the same heap and the two results are
-compared up to a bijection of the new identities (C13/Iso.v: which sub-objects are shared and which are
-fresh, and all contents); then a random edit history is applied to either copy on both sides and the
-heaps are compared again.  The property oracle (public API only) searches a concrete failing input.
+LOG
+---
+Model (C13/Model.v).  One heap `id -> option cell`, one allocation counter, cells: value, node, graph(/view),
+shape, type (whole element-type chain), dict (metadata_props and opset_imports), meta store, attr, meta object,
+function, model; tensors are immutable tokens.  Cloner state = heap + value map + two ghost lists: `passed`
+(node inputs passed through as outer-scope values) and `kept` (sharding-spec values left unmapped).  The
+Cloner is modelled as instantiated by the clone() entry points (attr_map={}, metadata_props={}, post_process
+no-op, resolve_ref_attrs=False).  clone_graph order as in the code: inputs, initializers, nodes in order
+(inputs via value map / pass-through / error, attributes before the node's outputs enter the map, outputs,
+device-configuration remap), outputs via _get_value (KeyError -> RuntimeError), dict of initializers re-keyed by
+name, fresh opset/metadata dicts, meta copied item by item then invalid keys.  All exceptions reach the caller as
+RuntimeError (_capture_error_context).  The type fix (copy.deepcopy(value.type)) is modelled; the dtype-setter
+witness stays in corpus/C13/dtype_setter.json.
+
+Theorems (Property.v; Proofs1..12.v ~ 2600 lines, build ~35 s):
+  C13_clone_only_allocates (+ model/function)  no existing cell is written, for any outcome incl. rejection
+  C13_fresh (+ _model, _function, _without_flag)  every cell reachable from the clone through new cells is new,
+      except shared non-graph Attr cells, meta objects when deep_copy=False, passed-through values only when
+      allow_outer_scope_values, and - only if the original violates C19's invariant wf_dev - kept spec values
+  C13_closed        if no passed/kept value later receives a clone (no use before definition), the old cells
+                    reachable from the clone are shared Attr / shallow meta objects / values the graph does NOT own
+  C13_faithful (+ _function, _model)   canonical serialization of clone = original's (hyp. dicts_wf: unique dict
+                    keys, attributes/initializers filed under their names), for every recursion depth
+  C13_independent_step  footprint + separation for each of the 19 setters, for ANY two-colouring
+  C13_independent, _canon, _sym, _model   histories of edits on one copy leave the other copy's cells (and the
+                    original's serialization) unchanged
+  C13_functional_pass_pure   functionalize(p)(m) leaves m's cells and serialization unchanged for every program of
+                    edits over the clone it is given (environment contract, see trusted base)
+  C13_unsorted_outer_refuted   vm_compute witness of the known finding (hypothesis of C13_closed is necessary)
+  C13_clone_is_graph, Example C13_hypotheses_satisfiable
+All full strength for the model; Raise OtherError (dangling id / fuel) is excluded by requiring Ok results, and
+the case files show the fuel given by the harness (next id) always suffices (a mismatch would be Ok vs Raise).
+
+Readings of the English (weaker reading where ambiguous):
+  * "tensors may be shared" and non-graph Attr objects are shared by the code on purpose: mutating a shared Attr
+    object in place (attr.name / doc_string / meta) or a tensor's own fields is outside the property; "attribute
+    sets" = the node.attributes dict (set / pop an entry).
+  * "serializes exactly like the original": byte equality of the deterministic proto, except for a GraphView,
+    whose own serialization lists value_info by the OWNING graph's is_graph_output(); a view and its clone are
+    compared modulo value_info + by py_canon (names, types, shapes, metadata of every value).
+  * metadata_props key order is not part of the serialization (serde sorts keys); the first serialization may
+    itself rename initializer tensors (serde syncs tensor.name), so baselines are taken after a warm-up.
+  * captured outer-scope values are shared by design: their use lists change and edits of them are visible on
+    both sides; the oracle skips them.  Model.meta is not copied by Model.clone (new empty store): not serialized.
+Modelled, not verified: back-pointers (uses/producer/graph) and the name authority; tensor objects' fields;
+inner element-type objects shared between values of the ORIGINAL; meta values other than ints / lists of ints.
+
+Findings: (1) known, unsorted-outer-scope (orchestrator-confirmed; C13_unsorted_outer_refuted; fix proposed in
+proposed_fixes/C13-predeclare-node-outputs.diff, not applied: it changes behaviour of unsorted graphs and the
+model/proofs would need a "declared output" state).  (2) known, tensor-rename-alias: Value.name setter renames
+the tensor object shared by clone and original; with the tensor also used as a node attribute the original's
+serialized proto changes after renaming the CLONE's value (corpus/C13/tensor_attr_shared.json); attributed by
+re-running the oracle with value renaming off; no small safe fix (documented setter behaviour).
+(3) fixed 823601c type-object-shared (witness kept in the corpus).
+
+Mutants tried in a scratch worktree (all VIOLATION with a concrete replay; C = caught by the correspondence,
+O = by the oracle): M1 clone_node shares output.type (C,O); M2 _clone_or_get_value shares shape (C,O); M3
+opset_imports not copied (C,O); M4 initializers cloned after nodes (C,O); M5 device configurations not
+remapped (C,O); M6 invalid meta keys dropped (C,O after adding is_valid probes to py_canon); M7 Model.clone
+shares metadata_props (C,O); M8 functionalize without clone (O only - the 2-line wrapper is tied by the oracle);
+M9 GRAPHS attributes shared (C,O); M10 node metadata_props dict shared (C,O); M12 deep_copy ignored for output
+meta (C,O); M13 Graph.clone ignores allow_outer_scope_values=False (C,O).  Applying the proposed fix makes the
+correspondence break and the known finding stale, as it must.
 """
 
 from __future__ import annotations
@@ -401,7 +470,7 @@ class Gen:
         outs = [rng.choice(outs_pool) for _ in range(rng.randrange(0, 3))] if outs_pool else []
         order = list(nodes)
         unsorted = False
-        if len(nodes) >= 2 and rng.random() < 0.2:
+        if len(nodes) >= 2 and rng.random() < 0.3:
             rng.shuffle(order)
             unsorted = order != nodes
         g = ir.Graph(ins, outs, nodes=order, initializers=list(dict.fromkeys(inits)), name=self.fresh("g"),
@@ -654,7 +723,9 @@ def gen_op(rng, ir, vals, nodes, graphs, uniq):
         if k == "GRemoveNode":
             if not nodes:
                 continue
-            return (k, g, [rng.choice(list(g) or nodes) if rng.random() < 0.8 else rng.choice(nodes)])
+            known = {id(x) for x in nodes}       # only nodes that existed right after the clone (ids known to both sides)
+            mine = [x for x in g if id(x) in known]
+            return (k, g, [rng.choice(mine or nodes) if rng.random() < 0.8 else rng.choice(nodes)])
         return (k, g, [rng.choice(["", "custom", "other"]), rng.randrange(1, 22)])
     return None
 
@@ -791,6 +862,75 @@ def op_json(R: Reg, op):
             "args": j(a)}
 
 
+# --------------------------------------------------------------------------- projection of ir.to_proto (twin of Iso.v proj_*)
+
+def MK(k):
+    return 1000000 + k
+
+
+def proto_proj(R: Reg, ir, root) -> list[int]:
+    """Names, op identifiers, connectivity by name, attribute names with nested graphs, initializer names, doc
+    strings and metadata_props, read from the ONNX proto that the implementation serializes."""
+    import onnx
+    from onnx_ir import serde
+
+    def e(sv):
+        return R.s(sv or "") + 1
+
+    def mp(msg):
+        out = []
+        for k, v in sorted((e(kv.key), e(kv.value)) for kv in msg.metadata_props):   # key order: by token
+            out += [k, v]
+        return out
+
+    def graph(g):
+        out = [MK(1), e(g.name), MK(2)] + [e(i.name) for i in g.input] + [MK(3)] + [e(o.name) for o in g.output]
+        out += [MK(4)] + [e(t.name) for t in g.initializer] + [MK(5)]
+        for n in g.node:
+            out += [MK(10), e(n.name), e(n.op_type), e(n.domain), e(n.overload), MK(11)] + [e(i) for i in n.input]
+            out += [MK(12)] + [e(o) for o in n.output] + [MK(13)]
+            for a in n.attribute:
+                if a.ref_attr_name:
+                    out += [MK(21), e(a.name), e(a.ref_attr_name)]
+                elif a.type == onnx.AttributeProto.GRAPH:
+                    out += [MK(22), e(a.name)] + graph(a.g) + [MK(23)]
+                elif a.type == onnx.AttributeProto.GRAPHS:
+                    out += [MK(24), e(a.name)]
+                    for sg in a.graphs:
+                        out += graph(sg)
+                    out += [MK(25)]
+                else:
+                    out += [MK(20), e(a.name)]
+            out += [MK(14), e(n.doc_string), MK(15)] + mp(n) + [MK(16)]
+        out += [MK(6), e(g.doc_string), MK(7)] + mp(g) + [MK(8)]
+        return out
+
+    def func(f):
+        # a FunctionProto carries the body of the function's graph without a graph name / initializers
+        out = [MK(30), e(f.domain), e(f.name), e(f.overload)]
+        return out, f
+    if isinstance(root, ir.Model):
+        m = serde.serialize_model(root)
+        out = graph(m.graph)
+        for f in root.functions.values():
+            out += function_proj(R, ir, f, graph)
+        return out
+    if isinstance(root, ir.Function):
+        return function_proj(R, ir, root, graph)
+    return graph(serde.serialize_graph(root))
+
+
+def function_proj(R, ir, f, graph):
+    """A FunctionProto has no graph message: the function's body is projected through serialize_graph of a view
+    of its nodes with the function's inputs/outputs (same node serializer), under the function's identifier."""
+    from onnx_ir import serde
+
+    def e(sv):
+        return R.s(sv or "") + 1
+    g = f._graph  # noqa: SLF001
+    return [MK(30), e(f.domain), e(f.name), e(f.overload)] + graph(serde.serialize_graph(g)) + [MK(31)]
+
+
 # --------------------------------------------------------------------------- one correspondence case
 
 CASE_HEADER = """From Coq Require Import List ZArith NArith PArith Bool.
@@ -812,6 +952,8 @@ def run_case(spec: dict, nops: int):
     root = R.id(sc["target"])
     sorted_py = is_sorted(ir, cloned_graph_of(sc))
     info = {"spec": spec, "cells_before": len(h0), "sorted": sorted_py}
+    pproj = proto_proj(R, ir, sc["target"])
+    pclone = []
     try:
         clone = sc["clone"]()
         res = ("ok", None)
@@ -824,6 +966,7 @@ def run_case(spec: dict, nops: int):
         after, final, cres = {}, {}, f"(Raise {res[1]})"
     else:
         roots = sc["univ"] + [clone]
+        pclone = proto_proj(R, ir, clone)
         after = D.dump(roots)
         cres = f"(Ok {P(R.id(clone))})"
         info["cells_after"] = len(after)
@@ -849,14 +992,17 @@ def run_case(spec: dict, nops: int):
     info["ops"] = ops_js
     term = ("(Case\n   " + cells_term(h0) + f"\n   {P(n0)} {cnat(sc['kind'])} {P(root)} "
             + clist(P(R.id(u)) for u in sc["univ"]) + f" {cbool(sc['allow'])} {cbool(sc['deep'])} {cres}\n   "
-            + cells_term(after) + f"\n   {cbool(sorted_py)}\n   " + clist(ops_terms) + "\n   " + cells_term(final) + ")")
+            + cells_term(after) + f"\n   {cbool(sorted_py)}\n   " + clist(ops_terms) + "\n   " + cells_term(final)
+            + "\n   " + clist(cN(x) for x in pproj) + "\n   " + clist(cN(x) for x in pclone) + ")")
     return term, info
 
 
 CODE_MEANING = {1: "both raise but different exceptions", 2: "one side raises, the other returns",
                 3: "heaps after clone are not isomorphic (sharing structure or contents differ)",
                 4: "use-before-definition flag of the model run differs from the implementation-side check",
-                5: "an edit operation has a different outcome", 6: "heaps after the edit history differ"}
+                5: "an edit operation has a different outcome", 6: "heaps after the edit history differ",
+                7: "projection of to_proto(original) differs from the model's canonical serialization",
+                8: "projection of to_proto(clone) differs from the canonical serialization of the model's clone"}
 
 
 def case_file(terms: list[str]) -> str:
@@ -1577,7 +1723,7 @@ def run(ck) -> None:
     ck.prove()
     seen: set = set()
     # ---- corpus + generated cases: correspondence model <-> implementation
-    n = 96 if not ck.thorough else 2400
+    n = 144 if not ck.thorough else 6000
     nops = 6 if not ck.thorough else 10
     specs = load_corpus() + [spec_for(ck.rng, i) for i in range(n)]
     try:
@@ -1606,7 +1752,7 @@ def run(ck) -> None:
         ck.broken("correspondence:clone-model-vs-implementation",
                   json.dumps({"spec": sp, "stage": CODE_MEANING.get(code, str(code))}))
     # ---- the oracle on the same scenarios (and more)
-    extra = 60 if not ck.thorough else 1500
+    extra = 60 if not ck.thorough else 4000
     ospecs = specs + [spec_for(ck.rng, i) for i in range(extra)]
     for sp, _ in bad:
         ospecs.insert(0, sp)
